@@ -6,8 +6,8 @@ def cls_alphabet():
     """one representative per code-point class of the CURRENT rule set (a rule change that makes
     the lexer distinguish a new character brings that character into the alphabet)"""
     from sqlparse import keywords
-    from vlib import charclass
-    one, two, info = charclass.representatives([rx for rx, _ in keywords.SQL_REGEX])
+    from vlib import charclass, oracles
+    one, two, info = charclass.representatives(oracles.rule_sources())
     return one
 
 
